@@ -102,6 +102,8 @@ theorem ctrans_cstep {b b' : BState} {i : Nat} (h : CTrans b i b') : CStep b i b
   case getPool hp => rw [poolAdd_frame hp]; exact .none rfl rfl
   case refPool hp => rw [poolAdd_frame hp]; exact .none rfl rfl
   case shutLocal hg => rw [hg]; exact .none rfl rfl
+  case mgetStep hg => rw [hg]; exact .none rfl rfl
+  case mgetFin hg => rw [hg]; exact .none rfl rfl
   case spot pc st _ _ => exact .spot st rfl rfl
   case sendOk cmd hpc => exact .send cmd hpc rfl rfl
   case shutSendCmd hpc hlt => exact .sendShutdown hpc hlt rfl rfl
